@@ -4,7 +4,7 @@ import ast
 from ..core.model import AnchorError
 from ..core.cfg import walk_shallow, cfg_of
 from ..core.facts import U, atoms_of
-from ..engine import fn_name, kwarg, local_defs, returns_of, stmts_in, vars_assigned_from, var_from_call
+from ..engine import argn, fn_name, kwarg, local_defs, returns_of, stmts_in, vars_assigned_from, var_from_call
 from ..kinds import parity
 from . import c13
 
@@ -158,11 +158,31 @@ def s4_s5(ctx, rep):
                 valid = name
     if valid is None:
         raise AnchorError("get_top_list: NaN-filtered list not found")
-    sorts = [x for x in walk_shallow(f.node) if isinstance(x, ast.Call) and ((isinstance(x.func, ast.Name) and x.func.id == "sorted") or fn_name(x) == "sort")]
+    ORDERING = {"sorted", "sort", "min", "max", "argsort", "argmin", "argmax", "nanargmin", "nanargmax", "nsmallest", "nlargest", "partition", "argpartition"}
+
+    def ordering(x):
+        if not isinstance(x, ast.Call):
+            return False
+        fs = [x.func.body, x.func.orelse] if isinstance(x.func, ast.IfExp) else [x.func]
+        return any((isinstance(g_, ast.Name) and g_.id in ORDERING) or (isinstance(g_, ast.Attribute) and g_.attr in ORDERING) for g_ in fs)
+
+    allord = [x for x in walk_shallow(f.node, include_lambda=True) if ordering(x)]
+    sorts = [x for x in allord if (isinstance(x.func, ast.Name) and x.func.id == "sorted") or fn_name(x) == "sort"]
+    # every comparison of metric values in this function is made among valid entries: an ordering operation over anything but the
+    # NaN-filtered list (a shortcut for a one-slot rung, a pre-selection) lets a NaN decide - NaN compares false with everything
+    for x in allord:
+        a0 = argn(x, 0) if x.args else (x.func.value if isinstance(x.func, ast.Attribute) else None)
+        names = {y.id for y in ast.walk(a0) if isinstance(y, ast.Name)} if a0 is not None else set()
+        if a0 is not None and valid not in names and not (isinstance(a0, ast.Name) and any(
+                not isinstance(d, tuple) and valid in {y.id for y in ast.walk(d) if isinstance(y, ast.Name)} for d in local_defs(f, a0.id))):
+            if names & {f.params[0]} or not names:
+                rep.bad("S4", "taint", "get_top_list: every ordering operation runs over the NaN-filtered entries", f, x,
+                        f"`{U(x)[:80]}` orders entries that still contain the NaN of failed trials: comparisons with NaN are all false, so a failed "
+                        "trial in the first position is never displaced and is promoted over valid trials")
     if len(sorts) != 1:
         raise AnchorError("get_top_list: expected exactly one sort")
     srt = sorts[0]
-    arg = srt.args[0] if srt.args else srt.func.value
+    arg = argn(srt, 0) if srt.args else srt.func.value
     ok = isinstance(arg, ast.Name) and arg.id == valid and len([d for d in local_defs(f, valid)]) == 1
     rep.put(ok, "S4", "taint", "get_top_list: the ranking sort operates on the NaN-filtered entries", f, srt, f"sorted({valid}, ...)",
             f"the sort runs over `{U(arg)}`, which still contains the NaN entries of failed trials: NaN breaks the ordering, so the "
@@ -362,7 +382,7 @@ def s9(ctx, rep):
                 if isinstance(e, ast.Call) and U(e.func) == "self.size_of_current_rung" and not want_first:
                     return ast.parse("self.current_rung", mode="eval").body
                 if isinstance(e, ast.Call) and fn_name(e) == "len" and e.args and not want_first:
-                    return rung_index(e.args[0], True)
+                    return rung_index(argn(e, 0), True)
                 return None
             kr, kn = rung_index(R, True), rung_index(N, False)
 
